@@ -117,6 +117,34 @@ def make_world(seed, jitter):
                 r = w.read_from_transcript(t, mode="full", jitter=0, polya=False)
                 if r is not None:
                     r.truth["class"] = "hidden-isoform"
+    # conforming reads whose tail is partly ALIGNED: 25 tail bases form a separate leading (polyT, '-' isoforms) or trailing (polyA, '+' isoforms)
+    # block on a genomic T / A stretch 300 bp outside the isoform, the rest of the tail is soft-clipped; full-length and 5'-truncated
+    n_aligned_tail = 0
+    # (not under preset 'exact': it sets the longest terminal block that may be taken for an aligned tail to 0, the block stays an exon)
+    for g in (list(w.genes) if jitter > 0 else []):
+        for t in g.transcripts[:1]:
+            if len(t.exons) < 3 or n_aligned_tail >= 12:
+                continue
+            blk = (t.exons[0][0] - 325, t.exons[0][0] - 301) if t.strand == "-" else (t.exons[-1][1] + 301, t.exons[-1][1] + 325)
+            if blk[0] < 50 or blk[1] > w.chrom_len(t.chrom) - 50:
+                continue
+            if any(not (g2.end < blk[0] - 120 or g2.start > blk[1] + 120) for g2 in w.genes if g2.chrom == t.chrom and g2 is not g) or \
+                    any(not (t2.end < blk[0] - 120 or t2.start > blk[1] + 120) for t2 in g.transcripts + g.hidden):
+                continue
+            seq_ = w.chroms[t.chrom]
+            for q in range(blk[0], blk[1] + 1):
+                seq_[q - 1] = "T" if t.strand == "-" else "A"
+            n_aligned_tail += 1
+            for k in range(2):
+                ex = list(t.exons)
+                if k == 1:
+                    ex = ex[:-1] if t.strand == "-" else ex[1:]          # 5'-truncated
+                    if len(ex) < 2:
+                        continue
+                al = ([blk] + ex) if t.strand == "-" else (ex + [blk])
+                tail = {"polyt": 15, "flag": 16} if t.strand == "-" else {"polya": 15, "flag": 0}
+                w.make_read(t.chrom, al, truth={"src": t.id, "class": "conforming", "mode": "full" if k == 0 else "trunc5", "true_exons": ex, "polya": True,
+                                                "tail_partly_aligned": True, "jitter": 0}, **tail)
     # isoform pairs that share their intron chain and differ only in the 3' end (300 bp apart): tailed and tail-less reads of both, full
     # length and 5'-truncated; a tail at the short isoform's end says which of the two the read comes from
     from vlib.world import Gene as _Gene, Transcript as _Transcript
@@ -187,7 +215,7 @@ def make_world(seed, jitter):
 def run(chk, scratch):
     thorough = chk.tier == "thorough"
     chk.rule = ("worlds with multi-isoform, overlapping (shared exons) and antisense genes on both strands over 3 chromosomes; conforming reads derived from annotated "
-                "isoforms (exact, 5'/3'/both-side truncated, junction jitter <= delta, exonic indels, =/X CIGAR operations with mismatching bases, polyA/polyT at the 3' end, mono-exonic) and non-conforming reads "
+                "isoforms (exact, 5'/3'/both-side truncated, junction jitter <= delta, exonic indels, =/X CIGAR operations with mismatching bases, polyA/polyT at the 3' end - soft-clipped, or partly aligned as a separate block on a genomic A/T stretch -, mono-exonic) and non-conforming reads "
                 "(skipped exon >= 150 bp, extra exon, retained intron, intron retained inside a terminal exon by a read sharing its intron chain with an end-extended read, site shifted >= 110 bp, end extended >= 420 bp or by 150-280 bp (tail-less), terminal block running 350-500 bp into an intron, 5' end extended >= 420 bp on a read whose 3' end carries a polyA/polyT tail, hidden isoforms; half of them with a tolerated 15-40 bp terminal extension on top); matching presets x data types. "
                 "non-trivial = distinct (isoform exon count, read mode, jitter, polyA, preset) among judged reads whose locus has >= 2 isoforms")
     jobs = []
